@@ -153,7 +153,7 @@ impl Engine for C07 {
 
     fn info(&self) -> EngineInfo {
         EngineInfo {
-            rule: "one run = one class on a fresh VM. memory: an allocation-heavy generated family (array/string/tree/record growth, plus generator programs) runs unlimited, then under 1-4 memory limits = baseline + delta; accounted memory is sampled at every check_collect (guarded hook) and at the end. stack: a recursion-heavy family (direct, mutual, data-building, closure-returning) under a sweep of value-stack limits, stack length checked at the end. tail: a tail-call family (self, mutual, through a function argument, through a partial application, in both branches, allocating) for n in {10, 1000, 30000}: the minimal stack limit that lets the run succeed must not depend on n and the peak frame count must be equal. interrupt: Thread::interrupt fired from the debug hook at the k-th CALL event of a terminating or non-terminating loop: Err(Interrupted) must arrive within 3 further CALL events. native: recursion through std.lazy.force (native stack) at depth 10..20000. native-data: a value 100..400000 levels deep (left-nested tree, chain of closures) built in constant VM stack by tail calls, collected while the host holds it and after the drop: the collector must not need native stack per level. Non-trivial = a limit error or an interrupt was actually produced; distinct = distinct workload hash.",
+            rule: "one run = one class on a fresh VM. memory: an allocation-heavy generated family (array/string/tree/record growth, plus generator programs) runs unlimited, then under 1-4 memory limits = baseline + delta; accounted memory is sampled at every check_collect (guarded hook) and at the end. stack: a recursion-heavy family (direct, mutual, data-building, closure-returning) under a sweep of value-stack limits, stack length checked at the end. tail: a tail-call family (self, mutual, through a function argument, through a partial application, in both branches, allocating) for n in {10, 1000, 30000}: the minimal stack limit that lets the run succeed must not depend on n and the peak frame count must be equal. interrupt: Thread::interrupt fired from the debug hook at the k-th CALL event of a terminating or non-terminating loop (in a third of the runs from a LINE hook, with no CALL hook installed, in a multi-line loop made of a self tail call and primitive instructions only): Err(Interrupted) must arrive within 3 further CALL (6 LINE) events. native: recursion through std.lazy.force (native stack) at depth 10..20000. native-data: a value 100..400000 levels deep (left-nested tree, chain of closures) built in constant VM stack by tail calls, collected while the host holds it and after the drop: the collector must not need native stack per level. Non-trivial = a limit error or an interrupt was actually produced; distinct = distinct workload hash.",
             real: vec!["Gc::alloc_owned limit check, Stack frame limit check, compiler's max_stack_size accounting, TailCall frame reuse, interrupt poll in Thread::execute, std.lazy force"],
             stubbed: vec!["executor", "the instant of the interrupt is a CALL-event index decided by the workload"],
             not_exercised: vec!["interrupt from another OS thread (same atomic flag; OS scheduling is C14's subject)"],
@@ -204,6 +204,17 @@ impl Engine for C07 {
                 } else {
                     deep_family(rng)
                 };
+                if rng.chance(1, 3) {
+                    // the interrupt is requested from a LINE hook: no CALL hook is installed while the
+                    // loop runs (an interpreter fast path may depend on that), the loop is made of a
+                    // self tail call and primitive instructions only, one iteration spans lines
+                    let (body, infinite) = match rng.below(3) {
+                        0 => ("rec let loop n =\n    let m = n #Int+ 1\n    loop m\nloop @N@", true),
+                        1 => ("rec let loop n acc =\n    if n #Int< 1 then acc\n    else\n        let a = acc #Int+ 1\n        loop (n #Int- 1) a\nloop @N@ 0", false),
+                        _ => ("rec let loop n t =\n    match t with\n    | Leaf i ->\n        if n #Int< 1 then i\n        else loop (n #Int- 1) (Leaf (i #Int+ 1))\n    | Node l s r -> loop n l\n    | Tip -> loop n (Leaf 0)\nloop @N@ Tip", false),
+                    };
+                    return json!({ "class": class, "body": body, "n": *rng.pick(&[50u64, 500, 5000]), "at": rng.below(200), "infinite": infinite, "hook": "line" });
+                }
                 json!({ "class": class, "body": body, "n": *rng.pick(&[50u64, 500, 5000]), "at": rng.below(200), "infinite": infinite })
             }
             "native-data" => {
@@ -369,7 +380,18 @@ impl Engine for C07 {
                 monitor.abort_after.store(at + 50_000, Ordering::SeqCst);
                 run::count("interrupt", 1);
                 run::set_context("interrupt");
+                let line_hook = w["hook"].as_str() == Some("line");
+                if line_hook {
+                    run::count("interrupt_from_line_hook", 1);
+                    vm.context().set_hook_mask(HookFlags::LINE_FLAG);
+                }
                 let out = eval(&vm, "intr", &src);
+                if line_hook {
+                    vm.context().set_hook_mask(HookFlags::CALL_FLAG);
+                }
+                // (in the line variant the monitor counts LINE events; at most two lines of one
+                // iteration can pass before the next tail call polls the flag)
+                let grace = if line_hook { 6 } else { 3 };
                 let fired = monitor.interrupted.load(Ordering::SeqCst);
                 let after = monitor.calls_after_interrupt.load(Ordering::SeqCst);
                 log.push(format!("interrupt at call {}: {} ({} calls later)", at, clip(&out), after));
@@ -377,16 +399,16 @@ impl Engine for C07 {
                     nontrivial = true;
                     if out != "ERR vm:Interrupted" {
                         // the program may legitimately finish inside the grace window
-                        if !(out.starts_with("OK") && after <= 3) {
+                        if !(out.starts_with("OK") && after <= grace) {
                             return Err(Violation::new(
                                 "interrupt-ignored",
-                                format!("interrupt requested at CALL event {} but the evaluation ended with `{}` after {} further CALL events", at, clip(&out), after),
+                                format!("interrupt requested at hook event {} but the evaluation ended with `{}` after {} further hook events", at, clip(&out), after),
                             ));
                         }
-                    } else if after > 3 {
+                    } else if after > grace {
                         return Err(Violation::new(
                             "interrupt-late",
-                            format!("interrupt requested at CALL event {} was delivered only {} CALL events later", at, after),
+                            format!("interrupt requested at hook event {} was delivered only {} hook events later", at, after),
                         ));
                     }
                     // the VM is usable again
